@@ -83,7 +83,7 @@ type MapD struct {
 }
 
 type In struct {
-	Kind      string            `json:"kind"` // round | decode
+	Kind      string            `json:"kind"` // round | decode | default
 	Label     string            `json:"label,omitempty"`
 	M         *MapD             `json:"m,omitempty"`
 	Docs      []json.RawMessage `json:"docs,omitempty"`
@@ -661,6 +661,9 @@ func exec(in In) vh.Result {
 	if in.Kind == "decode" {
 		return execDecode(in)
 	}
+	if in.Kind == "default" {
+		return execDefault(in)
+	}
 	return execRound(in)
 }
 
@@ -856,6 +859,31 @@ func trunc(s string) string {
 		return s[:400] + "…"
 	}
 	return s
+}
+
+func execDefault(in In) vh.Result {
+	var ctor reflect.Value
+	var target interface{}
+	switch in.Root {
+	case "IndexMappingImpl":
+		ctor, target = reflect.ValueOf(mapping.NewIndexMapping()), new(*mapping.IndexMappingImpl)
+	case "DocumentMapping":
+		ctor, target = reflect.ValueOf(mapping.NewDocumentMapping()), new(*mapping.DocumentMapping)
+	case "FieldMapping":
+		ctor, target = reflect.ValueOf(&mapping.FieldMapping{}), new(*mapping.FieldMapping)
+	default:
+		return vh.Result{Skip: true, Hist: []string{"skip:bad-root"}}
+	}
+	var uerr error
+	if d := vh.Guard(20*time.Second, "json.Unmarshal({})", func() { uerr = json.Unmarshal([]byte("{}"), target) }); d != nil {
+		return vh.Result{Direct: d}
+	}
+	decoded := cf.T("WVNone")
+	if uerr == nil {
+		decoded = cf.App("WVSome", dump(reflect.ValueOf(target).Elem()))
+	}
+	return vh.Result{Term: cf.App("WDefault", wstr(in.Root), cf.App("WVSome", dump(ctor)), decoded), Nontrivial: true,
+		Hist: []string{"default", "default-root:" + in.Root}}
 }
 
 func execDecode(in In) vh.Result {
@@ -1190,7 +1218,7 @@ func rndMap(r *vrand.R) *MapD {
 	m.Default = rndDoc(r, 0, &custom)
 	m.Default.Nested = false
 	for _, tn := range []string{"t1", "t2", "_default", "weird type/é"} {
-		if r.Chance(1, 3) {
+		if r.Chance(1, 4) {
 			d := rndDoc(r, 0, &custom)
 			d.Nested = false
 			m.Types = append(m.Types, PropD{tn, d})
@@ -1472,23 +1500,27 @@ func genDecode(r *vrand.R, m *MapD) (In, bool) {
 }
 
 func gen(f vh.Flags, r *vrand.R, emit func(In)) {
+	// 0. an absent key means the constructor's default
+	for _, root := range []string{"IndexMappingImpl", "DocumentMapping", "FieldMapping"} {
+		emit(In{Kind: "default", Root: root})
+	}
 	// 1. systematic sweep: every option of every level, one at a time
 	for _, s := range sweeps() {
 		emit(In{Kind: "round", Label: s.label, M: s.m, StdDocs: true, StructDoc: 2, Reopen: true})
 	}
 	// 2. random mapping trees with random documents
-	n := f.N(300, 12000)
+	n := f.N(200, 12000)
 	for i := 0; i < n; i++ {
 		rr := r.Fork()
 		m := rndMap(rr)
-		in := In{Kind: "round", M: m, Docs: rndDocsFor(rr, m, rr.Range(3, 5)), Reopen: true}
+		in := In{Kind: "round", M: m, Docs: rndDocsFor(rr, m, rr.Range(3, 5)), Reopen: rr.Bool()}
 		if rr.Chance(1, 4) {
 			in.StructDoc = rr.Range(1, 3)
 		}
 		emit(in)
 	}
 	// 3. the decoders on JSON no writer produced
-	nd := f.N(200, 8000)
+	nd := f.N(150, 8000)
 	for i := 0; i < nd; i++ {
 		rr := r.Fork()
 		var m *MapD
@@ -1517,8 +1549,9 @@ func main() {
 			"custom analysis components from a pool of 17) built through the bleve API, each with 3-5 documents (JSON values and Go structs) and a scorch " +
 			"index create/close/open; non-trivial = the mapping's JSON differs from NewIndexMapping()'s, distinct by JSON text. " +
 			"decode: real mapping JSON with 1-3 mutations (null member, repeated key, unknown key, member order, wrong type, dropped member, " +
-			"explicit zero) decoded as IndexMappingImpl / DocumentMapping / FieldMapping; all non-trivial.",
-		ShardSize: 40,
+			"explicit zero) decoded as IndexMappingImpl / DocumentMapping / FieldMapping; all non-trivial. " +
+			"default: \"{}\" decoded as each of the three against the constructor's value.",
+		ShardSize: 34,
 		Workers:   8,
 	}, gen, exec)
 }
